@@ -135,8 +135,12 @@ fn hash_bytes(mut hash: u64, key: &[u8]) -> u64 {
 impl Handle {
     pub fn from_bytes(key: &[u8]) -> Self {
         let hash = hash_bytes(2166136261, key);
-        debug_assert!(hash != 0);
-        Self(hash as u32)
+        Self::from_hash(hash)
+    }
+
+    /// 0 is reserved for empty slots, no key may map to it
+    fn from_hash(hash: u64) -> Self {
+        Self((hash as u32).max(1))
     }
 
     pub fn from_slice<'a, T>(keys: &'a [T]) -> Self
@@ -147,8 +151,7 @@ impl Handle {
         for key in keys {
             hash = hash_bytes(hash, key.into());
         }
-        debug_assert!(hash != 0);
-        Self(hash as u32)
+        Self::from_hash(hash)
     }
 
     pub fn from_bytes_iter<'a>(keys: impl Iterator<Item = &'a [u8]>) -> Self {
@@ -156,8 +159,7 @@ impl Handle {
         for key in keys {
             hash = hash_bytes(hash, key);
         }
-        debug_assert!(hash != 0);
-        Self(hash as u32)
+        Self::from_hash(hash)
     }
 
     pub fn from_u32(key: u32) -> Self {
